@@ -94,7 +94,8 @@ Print Assumptions C20_to_file_opened.
 (* ---- reading: json_object_from_fd_ex ---- *)
 
 (* all data x all schedules of sizes >= 1 (one entry more than bytes always suffices) x all
-   parsers: the parser is called once with exactly the data and the configured depth
+   tokeners: the tokener gets exactly the data and the configured depth (and, when it answers
+   continue without a value, the terminating NUL in a second call: parse2)
    (32 for -1); object, message and resources are those of that one in-memory parse *)
 Theorem C20_read_as_memory : forall parse app_ok sched data in_depth,
   always app_ok -> Forall ge1 sched -> zlen data < zlen sched -> 1 <= eff_depth in_depth ->
@@ -137,13 +138,13 @@ Proof. exact read_error. Qed.
 Print Assumptions C20_read_error.
 
 (* every schedule, parser, append oracle, every returning path: NULL iff a message was set;
-   a tree is what the one parser call returned for a prefix of the data; nothing stays
+   a tree is what parse2 (one or two tokener calls) returned for a prefix of the data; nothing stays
    allocated *)
 Theorem C20_read_failure_has_message_no_leak : forall parse app_ok sched data in_depth o,
   object_from_fd_ex parse app_ok sched data in_depth = RRet o ->
   (r_obj o = JNull <-> r_msg o <> MNone) /\
-  (r_obj o <> JNull -> exists pb, r_parsed o = Some (eff_depth in_depth, pb) /\
-                                  parse (eff_depth in_depth) pb = Some (r_obj o) /\ is_prefix pb data) /\
+  (r_obj o <> JNull -> exists pb n, r_parsed o = Some (eff_depth in_depth, pb, n) /\
+                                    parse2 parse (eff_depth in_depth) pb = (Some (r_obj o), n) /\ is_prefix pb data) /\
   r_live o = 0.
 Proof. exact read_failure_has_message_no_leak. Qed.
 Print Assumptions C20_read_failure_has_message_no_leak.
@@ -265,15 +266,19 @@ Proof. exact write_nonvacuous. Qed.
 
 Theorem C20_read_nonvacuous :
   object_from_fd_ex show_parse (fun _ _ => true) [Short 1; Short 5000; Short 1; Short 1] [91;49;93] 7 =
-    RRet (mkrout (JArr [JInt 7; JStr [91;49;93]]) MNone 3 (Some (7, [91;49;93])) 0)
+    RRet (mkrout (JArr [JInt 7; JStr [91;49;93]]) MNone 3 (Some (7, [91;49;93], 1)) 0)
   /\ object_from_fd_ex show_parse (fun _ _ => true) [Short 3; Short 3] [91;49;93] (-1) =
-    RRet (mkrout (JArr [JInt 32; JStr [91;49;93]]) MNone 2 (Some (32, [91;49;93])) 0)
+    RRet (mkrout (JArr [JInt 32; JStr [91;49;93]]) MNone 2 (Some (32, [91;49;93], 1)) 0)
   /\ object_from_fd_ex show_parse (fun _ _ => true) [Short 2; Err 5] [91;49;93] 7 =
     RRet (mkrout JNull MRead 2 None 0)
   /\ object_from_fd_ex show_parse (fun _ _ => true) [Short 3; Err 4] [91;49;93] 7 =
     RRet (mkrout JNull MRead 2 None 0)
-  /\ object_from_fd_ex (fun _ _ => None) (fun _ _ => true) [Short 2; Short 2; Short 2] [91;49;93] 7 =
-    RRet (mkrout JNull MParse 3 (Some (7, [91;49;93])) 0)
+  /\ object_from_fd_ex (mktokener (fun _ _ => PError) (fun _ _ => None)) (fun _ _ => true) [Short 2; Short 2; Short 2] [91;49;93] 7 =
+    RRet (mkrout JNull MParse 3 (Some (7, [91;49;93], 1)) 0)
+  /\ object_from_fd_ex literal_tokener (fun _ _ => true) [Short 1; Short 1; Short 1] [52;50] 7 =   (* the file holds just 42 *)
+    RRet (mkrout (JInt 42) MNone 3 (Some (7, [52;50], 2)) 0)
+  /\ object_from_fd_ex literal_tokener (fun _ _ => true) [Short 9; Short 9] [91;52;50] 7 =        (* [42 : unfinished *)
+    RRet (mkrout JNull MParse 2 (Some (7, [91;52;50], 2)) 0)
   /\ object_from_fd_ex show_parse (fun _ _ => true) [Short 2; Short 2; Short 2] [91;49;93] 0 =
     RRet (mkrout JNull MTokNew 0 None 0)
   /\ object_from_fd_ex show_parse (fun l _ => l <? 2) [Short 2; Short 2; Short 2] [91;49;93] 7 =
@@ -284,12 +289,12 @@ Proof. exact read_nonvacuous. Qed.
    truncated document *)
 Theorem C20_read_zero_truncates :
   object_from_fd_ex show_parse (fun _ _ => true) [Short 2; Short 0; Short 5] [91;49;93] 7 =
-    RRet (mkrout (JArr [JInt 7; JStr [91;49]]) MNone 2 (Some (7, [91;49])) 0).
+    RRet (mkrout (JArr [JInt 7; JStr [91;49]]) MNone 2 (Some (7, [91;49], 1)) 0).
 Proof. exact read_zero_truncates. Qed.
 
 Theorem C20_read_chunked_at_buffer_size :
   exists o, object_from_fd_ex show_parse (fun _ _ => true) [Short 100000; Short 100000; Short 100000; Short 1]
-              (zrepeat 32 8192) 7 = RRet o /\ r_reads o = 3 /\ r_parsed o = Some (7, zrepeat 32 8192).
+              (zrepeat 32 8192) 7 = RRet o /\ r_reads o = 3 /\ r_parsed o = Some (7, zrepeat 32 8192, 1).
 Proof. exact read_chunked_at_buffer_size. Qed.
 
 Theorem C20_file_nonvacuous :
@@ -306,7 +311,7 @@ Theorem C20_file_nonvacuous :
     (RRet (mkrout JNull MOpen 0 None 0), fs, 1, 0)
   /\ object_from_file_fs None fs [97] show_parse (fun _ _ => true) [Short 4; Short 9; Short 9] =
     (RRet (mkrout (JArr [JInt 32; JStr [49;50;51;52;53;54;55;56;57]]) MNone 3
-                  (Some (32, [49;50;51;52;53;54;55;56;57])) 0), fs, 1, 1)
+                  (Some (32, [49;50;51;52;53;54;55;56;57], 1)) 0), fs, 1, 1)
   /\ object_to_file_with (mkofl O_RDONLY false false false false) None fs [97] [Short 9] false (Some [91;49;93]) =
     (WRet (-1) true [] 1, fs, 1, 1)
   /\ object_to_file_with (mkofl O_WRONLY true false true false) None fs [97] [Short 9] false (Some [91;49;93]) =
